@@ -368,7 +368,7 @@ func dressedResponse(id [12]byte, tag string, h uint64) []byte {
 	case 1:
 		m.Add(stun.AttrFingerprint, []byte{1, 2, 3}) // wrong size
 	case 2:
-		_ = stun.Fingerprint.AddTo(m) // correct ...
+		_ = stun.Fingerprint.AddTo(m)             // correct ...
 		m.Add(stun.AttrSoftware, []byte("after")) // ... but no longer last
 	case 3:
 		m.Add(stun.AttrMessageIntegrity, bytes.Repeat([]byte{byte(h >> 3)}, 20))
